@@ -237,14 +237,24 @@ type ctorRow struct {
 }
 
 // ctorTable extracts the rows of the scalar type constructors of
-// meta/signature/type.go (functions returning &typeConstructor{…}).
+// meta/signature (functions returning &typeConstructor{…}, directly or through
+// a parameterised helper such as newScalarType(sig, idl, codec, …): then one
+// row per caller, the helper's parameters replaced by the caller's arguments).
 func ctorTable(c *core.Ctx) []ctorRow {
 	p := c.Pkg("meta/signature")
 	if p == nil {
 		return nil
 	}
-	var rows []ctorRow
+	info := p.TypesInfo
+	type tmpl struct {
+		fd *ast.FuncDecl
+		cl *ast.CompositeLit
+	}
+	var tmpls []tmpl
 	for _, f := range p.Syntax {
+		if strings.HasSuffix(p.Fset.Position(f.Pos()).Filename, "_test.go") {
+			continue
+		}
 		for _, d := range f.Decls {
 			fd, ok := d.(*ast.FuncDecl)
 			if !ok || fd.Body == nil || fd.Recv != nil {
@@ -255,102 +265,171 @@ func ctorTable(c *core.Ctx) []ctorRow {
 				if !ok {
 					return true
 				}
-				id, ok := cl.Type.(*ast.Ident)
-				if !ok || id.Name != "typeConstructor" {
-					return true
+				if id, ok := cl.Type.(*ast.Ident); ok && id.Name == "typeConstructor" {
+					tmpls = append(tmpls, tmpl{fd, cl})
+					return false
 				}
-				row := ctorRow{Func: fd.Name.Name, Pos: cl.Pos(), ReaderW: -3}
-				for _, el := range cl.Elts {
-					kv, ok := el.(*ast.KeyValueExpr)
-					if !ok {
-						continue
-					}
-					k, _ := kv.Key.(*ast.Ident)
-					if k == nil {
-						continue
-					}
-					switch k.Name {
-					case "signature":
-						row.Signature = stringLit(p.TypesInfo, kv.Value)
-					case "signatureIDL":
-						row.IDL = stringLit(p.TypesInfo, kv.Value)
-					case "reader":
-						row.ReaderStr = types.ExprString(kv.Value)
-						if call, ok := kv.Value.(*ast.CallExpr); ok {
-							if fn, ok := call.Fun.(*ast.Ident); ok && fn.Name == "constReader" && len(call.Args) == 1 {
-								if tv, ok := p.TypesInfo.Types[call.Args[0]]; ok && tv.Value != nil {
-									w, _ := strconv.ParseInt(tv.Value.ExactString(), 10, 64)
-									row.ReaderW = w
-								}
-							}
-						}
-						if cl2, ok := kv.Value.(*ast.CompositeLit); ok {
-							switch types.ExprString(cl2.Type) {
-							case "stringReader":
-								row.ReaderW = -1
-							case "valueReader":
-								row.ReaderW = -2
-							}
-						}
-					case "typ":
-						if call, ok := kv.Value.(*ast.CallExpr); ok && len(call.Args) == 1 {
-							if t := p.TypesInfo.TypeOf(call.Args[0]); t != nil {
-								row.GoType = t.String()
-							}
-						}
-					case "marshal", "unmarshal":
-						names := []string{}
-						ast.Inspect(kv.Value, func(m ast.Node) bool {
-							if bl, ok := m.(*ast.BasicLit); ok && bl.Kind == token.STRING {
-								s, _ := strconv.Unquote(bl.Value)
-								s = strings.TrimPrefix(s, "basic.")
-								if strings.HasPrefix(s, "Write") || strings.HasPrefix(s, "Read") || s == "NewValue" {
-									names = append(names, s)
-								}
-							}
-							return true
-						})
-						if len(names) > 0 {
-							if k.Name == "marshal" {
-								row.Marshal = names[0]
-							} else {
-								row.Unmarshal = names[0]
-							}
-						}
-					}
-				}
-				// reader: x / typ: y.Type() where x, _ := MakeReader(s) and y, _ := Parse(s)
-				for _, el := range cl.Elts {
-					kv, ok := el.(*ast.KeyValueExpr)
-					if !ok {
-						continue
-					}
-					k, _ := kv.Key.(*ast.Ident)
-					if k == nil {
-						continue
-					}
-					switch k.Name {
-					case "reader":
-						if id, ok := kv.Value.(*ast.Ident); ok {
-							row.ReaderSig = derivedFrom(p, fd, id, "MakeReader")
-						}
-					case "typ":
-						if call, ok := kv.Value.(*ast.CallExpr); ok {
-							if sel, ok := call.Fun.(*ast.SelectorExpr); ok && sel.Sel.Name == "Type" {
-								if id, ok := sel.X.(*ast.Ident); ok {
-									row.TypSig = derivedFrom(p, fd, id, "Parse")
-								}
-							}
-						}
-					}
-				}
-				rows = append(rows, row)
-				return false
+				return true
 			})
+		}
+	}
+	var rows []ctorRow
+	for _, t := range tmpls {
+		nparams := 0
+		if t.fd.Type.Params != nil {
+			for _, f := range t.fd.Type.Params.List {
+				nparams += len(f.Names)
+			}
+		}
+		if nparams == 0 {
+			rows = append(rows, rowFromLiteral(p, t.fd, t.fd.Name.Name, t.cl, nil))
+			continue
+		}
+		// a template: one row per function that returns a call of it
+		tobj := info.Defs[t.fd.Name]
+		var params []types.Object
+		for _, f := range t.fd.Type.Params.List {
+			for _, nm := range f.Names {
+				params = append(params, info.Defs[nm])
+			}
+		}
+		for _, f := range p.Syntax {
+			for _, d := range f.Decls {
+				caller, ok := d.(*ast.FuncDecl)
+				if !ok || caller.Body == nil || caller == t.fd {
+					continue
+				}
+				ast.Inspect(caller.Body, func(n ast.Node) bool {
+					call, ok := n.(*ast.CallExpr)
+					if !ok {
+						return true
+					}
+					id, ok := call.Fun.(*ast.Ident)
+					if !ok || info.Uses[id] != tobj || len(call.Args) != len(params) {
+						return true
+					}
+					env := map[types.Object]ast.Expr{}
+					for i, po := range params {
+						env[po] = call.Args[i]
+					}
+					r := rowFromLiteral(p, t.fd, caller.Name.Name, t.cl, env)
+					r.Pos = call.Pos()
+					rows = append(rows, r)
+					return false
+				})
+			}
 		}
 	}
 	sort.Slice(rows, func(i, j int) bool { return rows[i].Func < rows[j].Func })
 	return rows
+}
+
+// rowFromLiteral reads one typeConstructor literal; env maps the parameters of
+// the enclosing template function to the arguments of one of its callers.
+func rowFromLiteral(p *packages.Package, fd *ast.FuncDecl, name string, cl *ast.CompositeLit, env map[types.Object]ast.Expr) ctorRow {
+	info := p.TypesInfo
+	row := ctorRow{Func: name, Pos: cl.Pos(), ReaderW: -3}
+	subst := func(e ast.Expr) ast.Expr {
+		if id, ok := e.(*ast.Ident); ok && env != nil {
+			if a, ok := env[info.ObjectOf(id)]; ok {
+				return a
+			}
+		}
+		return e
+	}
+	str := func(e ast.Expr) string {
+		if v, ok := staticStringEnv(p, e, env, 0); ok {
+			return v
+		}
+		return ""
+	}
+	for _, el := range cl.Elts {
+		kv, ok := el.(*ast.KeyValueExpr)
+		if !ok {
+			continue
+		}
+		k, _ := kv.Key.(*ast.Ident)
+		if k == nil {
+			continue
+		}
+		val := subst(kv.Value)
+		switch k.Name {
+		case "signature":
+			row.Signature = str(kv.Value)
+		case "signatureIDL":
+			row.IDL = str(kv.Value)
+		case "reader":
+			row.ReaderStr = types.ExprString(val)
+			if call, ok := val.(*ast.CallExpr); ok {
+				if fn, ok := call.Fun.(*ast.Ident); ok && fn.Name == "constReader" && len(call.Args) == 1 {
+					if tv, ok := info.Types[subst(call.Args[0])]; ok && tv.Value != nil {
+						w, _ := strconv.ParseInt(tv.Value.ExactString(), 10, 64)
+						row.ReaderW = w
+					}
+				}
+			}
+			if cl2, ok := val.(*ast.CompositeLit); ok {
+				switch types.ExprString(cl2.Type) {
+				case "stringReader":
+					row.ReaderW = -1
+				case "valueReader":
+					row.ReaderW = -2
+				}
+			}
+			if id, ok := val.(*ast.Ident); ok {
+				row.ReaderSig = derivedFrom(p, fd, id, "MakeReader")
+			}
+		case "typ":
+			if call, ok := val.(*ast.CallExpr); ok {
+				if len(call.Args) == 1 {
+					if t := info.TypeOf(call.Args[0]); t != nil {
+						row.GoType = t.String()
+					}
+				}
+				if sel, ok := call.Fun.(*ast.SelectorExpr); ok && sel.Sel.Name == "Type" {
+					if id, ok := sel.X.(*ast.Ident); ok {
+						row.TypSig = derivedFrom(p, fd, id, "Parse")
+					}
+				}
+			}
+		case "marshal", "unmarshal":
+			// the primitive named by the emitter: a string operand (literal, constant,
+			// local or parameter-derived) of the form [basic.]Write… / Read… / NewValue
+			found := ""
+			ast.Inspect(kv.Value, func(m ast.Node) bool {
+				if found != "" {
+					return false
+				}
+				e, ok := m.(ast.Expr)
+				if !ok {
+					return true
+				}
+				t := info.TypeOf(e)
+				if t == nil {
+					return true
+				}
+				if b, isB := t.Underlying().(*types.Basic); !isB || b.Info()&types.IsString == 0 {
+					return true
+				}
+				if s, ok := staticStringEnv(p, e, env, 0); ok {
+					s = strings.TrimPrefix(s, "basic.")
+					if strings.HasPrefix(s, "Write") || strings.HasPrefix(s, "Read") || s == "NewValue" {
+						found = s
+					}
+					return false
+				}
+				return true
+			})
+			if found != "" {
+				if k.Name == "marshal" {
+					row.Marshal = found
+				} else {
+					row.Unmarshal = found
+				}
+			}
+		}
+	}
+	return row
 }
 
 // derivedFrom: local variable id of fd is defined by `id, _ := <fn>(arg)`;
@@ -396,20 +475,31 @@ func derivedFrom(p *packages.Package, fd *ast.FuncDecl, id *ast.Ident, fn string
 // package-level variable with a single static initialiser, a concatenation of
 // such, or fmt.Sprintf with a constant format using only %s and static arguments.
 func staticString(p *packages.Package, e ast.Expr, depth int) (string, bool) {
+	return staticStringEnv(p, e, nil, depth)
+}
+
+// staticStringEnv: as staticString, with identifiers bound by env (parameters
+// of a template function -> arguments of one caller) replaced first.
+func staticStringEnv(p *packages.Package, e ast.Expr, env map[types.Object]ast.Expr, depth int) (string, bool) {
 	info := p.TypesInfo
-	if depth > 6 {
+	if depth > 8 {
 		return "", false
+	}
+	if id, ok := e.(*ast.Ident); ok && env != nil {
+		if a, ok := env[info.ObjectOf(id)]; ok {
+			return staticStringEnv(p, a, nil, depth+1)
+		}
 	}
 	if tv, ok := info.Types[e]; ok && tv.Value != nil {
 		return stringLit(info, e), true
 	}
 	switch x := e.(type) {
 	case *ast.ParenExpr:
-		return staticString(p, x.X, depth+1)
+		return staticStringEnv(p, x.X, env, depth+1)
 	case *ast.BinaryExpr:
 		if x.Op == token.ADD {
-			a, ok1 := staticString(p, x.X, depth+1)
-			b, ok2 := staticString(p, x.Y, depth+1)
+			a, ok1 := staticStringEnv(p, x.X, env, depth+1)
+			b, ok2 := staticStringEnv(p, x.Y, env, depth+1)
 			return a + b, ok1 && ok2
 		}
 	case *ast.Ident:
@@ -442,11 +532,11 @@ func staticString(p *packages.Package, e ast.Expr, depth int) (string, bool) {
 			})
 		}
 		if n == 1 && init != nil {
-			return staticString(p, init, depth+1)
+			return staticStringEnv(p, init, env, depth+1)
 		}
 	case *ast.CallExpr:
 		if sel, ok := x.Fun.(*ast.SelectorExpr); ok && sel.Sel.Name == "Sprintf" && len(x.Args) >= 1 {
-			format, ok := staticString(p, x.Args[0], depth+1)
+			format, ok := staticStringEnv(p, x.Args[0], env, depth+1)
 			if !ok {
 				return "", false
 			}
@@ -468,7 +558,7 @@ func staticString(p *packages.Package, e ast.Expr, depth int) (string, bool) {
 					if ai >= len(x.Args) {
 						return "", false
 					}
-					v, ok := staticString(p, x.Args[ai], depth+1)
+					v, ok := staticStringEnv(p, x.Args[ai], env, depth+1)
 					if !ok {
 						return "", false
 					}
